@@ -9,9 +9,11 @@ WANT = {"rand": "rand", "vh": "vh", "scale_info": "scale_info", "parity_scale_co
 
 
 class Deps:
-    def __init__(self, features=()):
+    def __init__(self, features=(), pkg="vh"):
+        """pkg="min": only scale-info itself is made available (harness/min)"""
         self.features = tuple(features)
-        cmd = ["cargo", "build", "--offline", "-p", "vh", "--lib", "--message-format=json"]
+        want = WANT if pkg == "vh" else {"scale_info": "scale_info"}
+        cmd = ["cargo", "build", "--offline", "-p", pkg, "--lib", "--message-format=json"]
         if features:
             cmd += ["--features", ",".join(features)]
         cmd += vlib.cargo_extra()
@@ -27,11 +29,11 @@ class Deps:
             if m.get("reason") != "compiler-artifact":
                 continue
             name = m["target"]["name"].replace("-", "_")
-            if name in WANT and "lib" in m["target"]["kind"][0] or name in WANT and m["target"]["kind"] == ["lib"]:
+            if name in want and "lib" in m["target"]["kind"][0] or name in want and m["target"]["kind"] == ["lib"]:
                 rl = [f for f in m["filenames"] if f.endswith(".rlib")]
                 if rl:
-                    self.externs[WANT[name]] = rl[0]
-        missing = [v for v in WANT.values() if v not in self.externs]
+                    self.externs[want[name]] = rl[0]
+        missing = [v for v in want.values() if v not in self.externs]
         if missing:
             raise vlib.ToolError("could not locate rlibs for %s" % missing)
         self.depdir = os.path.join(vlib.TARGET, "debug", "deps")
